@@ -192,16 +192,12 @@ fn check_tree(model: &mut Model, family: &str, blk: &Blk, spans: &[usize], local
         }
     };
     let expected = norm_block(blk);
-    let f23 = outside_h2(blk, false);
     let f23b = outside_h2(blk, true);
     let f26 = in_f26_region(blk);
     if f26 {
         local.hist("family", "outside-H3 (printer-added `)` before a `(`-statement without `;`)");
     }
     local.hist("family", family);
-    if f23 {
-        local.hist("family", "outside-H2 (negative literal left of ^ or under ::)");
-    }
     if f23b {
         local.hist("family", "outside-H2 for dense (negative literal left of ..)");
     }
@@ -297,7 +293,7 @@ fn check_tree(model: &mut Model, family: &str, blk: &Blk, spans: &[usize], local
                         }
                         continue;
                     }
-                    if f23 || (f23b && kind == "dense") {
+                    if f23b && kind == "dense" {
                         if !local.f23_seen.iter().any(|t| t == &run.text) && local.f23_seen.len() < 4 {
                             local.f23_seen.push(run.text.clone());
                         }
@@ -818,7 +814,7 @@ pub fn run(report: &mut Report, replay: Option<&str>) {
     f23_texts.dedup();
     if !f23_texts.is_empty() {
         report.notes.push(format!(
-            "trees outside H2 (negative literal as left operand of ^ / under :: / left of .. in dense) were generated and did not read back, as findings F23/F23b say; e.g. {:?}",
+            "trees with a negative literal written directly before `..` by the dense generator were generated and did not read back, as finding F25 says; e.g. {:?}",
             f23_texts.iter().take(3).collect::<Vec<_>>()
         ));
     }
